@@ -221,9 +221,9 @@ func (sm *SessionManager) background() {
 						}
 						sm.Lock()
 						// after rebuildTimer, check if Session.CloseChan caused by hotrestart,
-						// pool.epochId != sm.pools[id].epochId represent the pools has been replaced by the new epoch pools,
-						// this time Session.CloseChan will not rebuild session.
-						sessionHadChangedByHotrestart := sm.pools[id].Session().epochID != pool.Session().epochID
+						// sm.pools[id] != pool represent the pool has been replaced by a new epoch pool
+						// (whatever the epoch ids are, they may be equal), this time Session.CloseChan will not rebuild session.
+						sessionHadChangedByHotrestart := sm.pools[id] != pool
 						if sessionHadChangedByHotrestart {
 							sm.Unlock()
 							break
